@@ -33,8 +33,9 @@ let run (handle : Stdlib.String.t list -> Stdlib.String.t list -> Stdlib.String.
            end;
            if model <> obs then begin
              incr diffs;
+             let clip s = if Stdlib.String.length s > 6000 then Stdlib.String.sub s 0 6000 ^ "..." else s in
              Printf.printf "DIFF %d tag=%s model=%s impl=%s\n" !total tag
-               (Stdlib.String.concat " " model) (Stdlib.String.concat " " obs)
+               (clip (Stdlib.String.concat " " model)) (clip (Stdlib.String.concat " " obs))
            end
        end
      done
